@@ -139,6 +139,16 @@ func runGo(dir string, args ...string) (string, error) {
 
 // BuildGenlab builds the generator worker against the repository's current working tree.
 func BuildGenlab(repoHash string) (string, error) {
+	return BuildGenlabWith(repoHash, nil, "")
+}
+
+// BuildGenlabWith builds the generator worker around a given front-end source (nil = the
+// checked-in peg.peg.go of the working tree); tag distinguishes the cached binaries.
+func BuildGenlabWith(repoHash string, frontSrc []byte, tag string) (string, error) {
+	if tag != "" {
+		h := sha256.Sum256(frontSrc)
+		repoHash += "-" + tag + "-" + hex.EncodeToString(h[:4])
+	}
 	srcFile := filepath.Join(VerifDir, "internal/genlab/main.go.txt")
 	if sb, err := os.ReadFile(srcFile); err == nil {
 		h := sha256.Sum256(sb)
@@ -163,9 +173,11 @@ func BuildGenlab(repoHash string) (string, error) {
 	if err != nil {
 		return "", err
 	}
-	front, err := os.ReadFile(filepath.Join(RepoDir, "peg.peg.go"))
-	if err != nil {
-		return "", err
+	front := frontSrc
+	if front == nil {
+		if front, err = os.ReadFile(filepath.Join(RepoDir, "peg.peg.go")); err != nil {
+			return "", err
+		}
 	}
 	_ = os.WriteFile(filepath.Join(dir, "main.go"), src, 0o644)
 	_ = os.WriteFile(filepath.Join(dir, "peg.peg.go"), front, 0o644)
@@ -410,4 +422,18 @@ func RunSupervised(bin, shardFile string, rewrite func(skip map[string]bool) err
 		}
 	}
 	return crashes, fmt.Errorf("too many crashes in one shard")
+}
+
+// GoEnvPlain is the go environment for commands run inside a checkout of the repository itself
+// (its own module): offline, dedicated build cache, no module redirection.
+func GoEnvPlain() []string {
+	env := []string{}
+	for _, e := range os.Environ() {
+		if strings.HasPrefix(e, "GOFLAGS=") || strings.HasPrefix(e, "GOPROXY=") || strings.HasPrefix(e, "GOCACHE=") ||
+			strings.HasPrefix(e, "GOSUMDB=") || strings.HasPrefix(e, "GOTOOLCHAIN=") {
+			continue
+		}
+		env = append(env, e)
+	}
+	return append(env, "GOFLAGS=-mod=mod", "GOPROXY=off", "GOCACHE="+filepath.Join(CacheDir(), "gocache"))
 }
